@@ -425,6 +425,29 @@ pub fn run(toks: &[&str]) -> String {
                         Err(_) => ("ref".to_string(),None)
                     }
                 },
+                "C" => {
+                    // C~src~dst : fetch whatever is at src as a file image and store that image as dst (what `get -t any | put -t any`
+                    // does); what comes of it is a file: it may never be another way into the blocks of src
+                    let key = norm_path(fs,f[2]); touched = Some(key.clone());
+                    match r.disk.get(f[1]) {
+                        Ok(mut fimg) => {
+                            fimg.full_path = f[2].to_string();
+                            // (the image of a directory says length 0: give it the length of its data, so that what is stored is a
+                            // well-formed file and only the attribute byte is out of the ordinary)
+                            if fimg.get_eof()==0 { let n: usize = fimg.chunks.values().map(|c| c.len()).sum(); fimg.set_eof(n); }
+                            match r.disk.put(&fimg) {
+                                Ok(_) => {
+                                    let mut chunks = BTreeMap::new();
+                                    for (k,v) in &fimg.chunks { chunks.insert(*k,v.len()); }
+                                    r.shadow.insert(key,Shadow { id: 0, is_dir: false, chunks, eof: fimg.get_eof(), ftype: vec![], aux: vec![], access: vec![], locked: false, got: None });
+                                    ("ok".to_string(),None)
+                                },
+                                Err(_) => ("ref".to_string(),None)
+                            }
+                        },
+                        Err(_) => ("ref".to_string(),None)
+                    }
+                },
                 "L" | "U" => {
                     let key = norm_path(fs,f[1]); touched = Some(key.clone());
                     let res = if f[0]=="L" { r.disk.lock(f[1]) } else { r.disk.unlock(f[1]) };
@@ -515,7 +538,9 @@ pub fn run(toks: &[&str]) -> String {
                 Err(_) => { raise!(format!("C03 fsck reader panicked [step {} op {}]",step,op)); }
             }
         }
-        match catch_unwind(AssertUnwindSafe(|| r.check_all(step,&touched))) {
+        // option e (long fill histories): every file is read back only every 100th step and near the end
+        let sparse_checks = opts.contains('e') && !(step%100==99 || step+6>=ops.len());
+        match if sparse_checks { Ok(Ok(())) } else { catch_unwind(AssertUnwindSafe(|| r.check_all(step,&touched))) } {
             Ok(Ok(())) => {},
             Ok(Err(e)) => { raise!(format!("{} [step {} op {} res {}]",e,step,op,res)); },
             Err(_) => { raise!(format!("C12 observation panicked [step {} op {}]",step,op)); }
